@@ -392,7 +392,7 @@ def ctx(op, cols, rows, props, alt=2, sb=1, mem=8):
 
 
 for op in ("Decsc", "Scosc", "Save1048", "Decrc", "Scorc", "Restore1048", "Decstr"):
-    ctx(op, 3, 3, {"C17": Q, "C02": T, "C01": T})
+    ctx(op, 3, 3, {"C17": Q, "C16": Q if op == "Decstr" else T, "C02": T, "C01": T})
     ctx(op, 1, 1, {"C17": T, "C01": T}, sb=0)
 
 
@@ -650,3 +650,9 @@ for op in ("Il", "Dl"):
     scroll(op, 3, 4, 2, 0, 1, {"C06": T, "C15": Q if op == "Dl" else T, "C14": T}, mem=12)
 switch("Enter1047", 3, 3, 0, {"C16": Q, "C02": T, "C17": T, "C08": T}, parked_rows=2, asrow=1, suffix="_stale_grow")
 switch("Enter1049", 3, 3, 0, {"C16": T, "C17": T}, parked_rows=1, asrow=0, suffix="_stale_grow")
+
+# RI on a top margin that is row 0 (downward scroll right below the scrollback)
+for _i in INSTANCES:
+    if _i["name"] == "sc_ri__3x3_r0_m02":
+        _i["props"]["C06"] = Q
+        _i["props"]["C14"] = Q
